@@ -851,9 +851,10 @@ fn gen_case(batch: &str, index: u64, seed: u64) -> Case {
             let coef: Vec<f64> = (0..p).map(|_| r.range(-2.0, 2.0)).collect();
             let nonlin = pr.chance(0.5);
             let noise = *pr.pick(&[0.0, 0.05, 0.3]);
+            let yoff = *pr.pick(&[0.0, 0.0, 0.0, 10.0, -100.0, 1000.0]);
             let y: Vec<f64> = x.iter().map(|row| {
                 let lin: f64 = row.iter().zip(&coef).map(|(a, b)| a * b).sum();
-                (if nonlin { lin.sin() * 2.0 } else { lin }) + noise * r.gaussish()
+                yoff + (if nonlin { lin.sin() * 2.0 } else { lin }) + noise * r.gaussish()
             }).collect();
             let kernel = gen_kernel(&mut pr, true, true);
             let nq = pr.usize_in(0, 5);
